@@ -149,13 +149,22 @@ type DownloadResult struct {
 // Download requests a file and reads the whole transfer stream.
 // resumeAt < 0: no resume record.  preview: send transfer options = 2.
 func (c *Client) Download(path []string, name string, resumeAt int64, preview bool) DownloadResult {
+	if preview {
+		return c.DownloadOpt(path, name, resumeAt, []byte{0, 2})
+	}
+	return c.DownloadOpt(path, name, resumeAt, nil)
+}
+
+// DownloadOpt is Download with the bytes of the transfer-options field given (nil: no such field; empty but not nil:
+// the field with a size of 0).
+func (c *Client) DownloadOpt(path []string, name string, resumeAt int64, opts []byte) DownloadResult {
 	var res DownloadResult
 	f := append([]rp.Field{rp.FS(rp.FFileName, name)}, PathField(path)...)
 	if resumeAt >= 0 {
 		f = append(f, rp.F(rp.FFileResumeData, rp.ResumeData(uint32(resumeAt), 0, false)))
 	}
-	if preview {
-		f = append(f, rp.F16(rp.FFileTransferOptions, 2))
+	if opts != nil {
+		f = append(f, rp.F(rp.FFileTransferOptions, opts))
 	}
 	rep, ok := c.Do(rp.TDownloadFile, f...)
 	res.Reply = rep
